@@ -86,6 +86,12 @@ class VSock:
             raise x
         return x
 
+    def recv_into(self, buf, nbytes=0):
+        x = self.recv(nbytes or len(buf))
+        n = len(x)
+        buf[:n] = x
+        return n
+
     def send(self, b):
         if self.send_plan:
             k = self.send_plan.pop(0)
@@ -121,6 +127,7 @@ class World:
         self.randbits_value = 77
         self.spawned = []
         self.thread_start_fails = False
+        self.defer_pump = 0          # the connection workers lag behind the I/O thread for this many loop iterations
 
     # ---------------------------------------------------------------- shims
     def install(self):
@@ -240,6 +247,9 @@ class World:
         """run I/O-loop iterations + worker pumps until nothing is ready (the next select would time out)"""
         for _ in range(max_iter):
             self.iterate(node, th)
+            if self.defer_pump > 0:
+                self.defer_pump -= 1
+                continue
             moved = self.pump(node)
             if self.timed_out and not moved and not self.pipe:
                 return
